@@ -37,6 +37,16 @@ func genEditMember() *rapid.Generator[AMember] {
 func genC(t *rapid.T) CaseC {
 	c := CaseC{Init: rapid.SliceOfN(genEditMember(), 0, 4).Draw(t, "init")}
 	nVals, nCtxs := 1, 0
+	var used []string // keys some value holds (or held)
+	for _, m := range c.Init {
+		used = append(used, m.K)
+	}
+	setOp := func(t *rapid.T, on int) {
+		m := genEditMember().Draw(t, "m")
+		used = append(used, m.K)
+		c.Ops = append(c.Ops, Op{Kind: "set", On: on, M: m})
+		nVals++
+	}
 	val := func(t *rapid.T) int {
 		// bias to recent values and to the very first one
 		switch rapid.IntRange(0, 3).Draw(t, "which") {
@@ -54,20 +64,20 @@ func genC(t *rapid.T) CaseC {
 		return rapid.IntRange(-1, nCtxs-1).Draw(t, "ctx")
 	}
 	t.Repeat(map[string]func(*rapid.T){
-		"set": func(t *rapid.T) {
-			c.Ops = append(c.Ops, Op{Kind: "set", On: val(t), M: genEditMember().Draw(t, "m")})
-			nVals++
-		},
-		"set2": func(t *rapid.T) { // twice as likely as the other actions
-			c.Ops = append(c.Ops, Op{Kind: "set", On: val(t), M: genEditMember().Draw(t, "m")})
-			nVals++
-		},
+		"set":  func(t *rapid.T) { setOp(t, val(t)) },
+		"set2": func(t *rapid.T) { setOp(t, val(t)) }, // twice as likely as the other actions
 		"setzero": func(t *rapid.T) {
 			c.Ops = append(c.Ops, Op{Kind: "setzero", On: val(t)})
 			nVals++
 		},
 		"delete": func(t *rapid.T) {
-			c.Ops = append(c.Ops, Op{Kind: "delete", On: val(t), Key: rapid.SampledFrom(append([]string{"", "zz"}, editKeys...)).Draw(t, "key")})
+			key := ""
+			if len(used) > 0 && rapid.IntRange(0, 3).Draw(t, "usedkey") > 0 {
+				key = rapid.SampledFrom(used).Draw(t, "key")
+			} else {
+				key = rapid.SampledFrom(append([]string{"", "zz"}, editKeys...)).Draw(t, "key")
+			}
+			c.Ops = append(c.Ops, Op{Kind: "delete", On: val(t), Key: key})
 			nVals++
 		},
 		"store": func(t *rapid.T) {
@@ -262,7 +272,7 @@ func TestImmutability(t *testing.T) {
 		Rule: "edit sequences (rapid state machine, ~30 steps) of SetMember / SetMember(zero) / DeleteMember on any earlier value, ContextWithBaggage / ContextWithoutBaggage on Background or an earlier context, FromContext, " +
 			"and overwriting of the slices returned by Members() / Properties(); after every step every value ever produced and the baggage of every context are read through Member / Members / Len and compared with their immutable-map models; " +
 			"non-trivial = a set or an effective delete is applied to a value that is held by (or was read from) a context; distinct = distinct case encodings",
-		Quick: 4000, Thorough: 60000,
+		Quick: 6000, Thorough: 60000,
 		Gen: genC, Run: runC,
 	})
 }
